@@ -87,7 +87,7 @@ func genC14(w *bufio.Writer, tier string, rng *rand.Rand) {
 				mn, width = float64(rng.Intn(20)-10)/4, float64(nb)*math.Ldexp(1, rng.Intn(7)-3)
 			}
 			if rng.Intn(15) == 0 { // any min < max: ranges near the ends of the float64 range
-				width = math.Ldexp(float64(1+rng.Intn(7)), []int{1015, 1000, -1000, -1015, 900}[rng.Intn(5)])
+				width = math.Ldexp(float64(1+rng.Intn(7)), []int{1020, 1015, 1000, -1000, -1015, 900}[rng.Intn(6)])
 				mn = []float64{0, -width / 4, width / 8}[rng.Intn(3)]
 			}
 			mx := mn + width
@@ -108,6 +108,11 @@ func genC14(w *bufio.Writer, tier string, rng *rand.Rand) {
 					xs[i] = mx + (rng.Float64()-0.5)*bw
 				default:
 					xs[i] = mn + rng.Float64()*width
+				}
+			}
+			for i := range xs { // samples are finite
+				if math.IsInf(xs[i], 0) || math.IsNaN(xs[i]) {
+					xs[i] = mx
 				}
 			}
 			bs := []float64{0, float64(nb), float64(rng.Intn(nb + 1)), rng.Float64() * float64(nb), -1, float64(nb) + 0.5}
